@@ -1,6 +1,7 @@
 (* allow-axioms:  *)
 From RRE Require Import Base.Sx Base.Float Base.Num Model.ExprShape Proofs.ExprShapeProofs Model.BwExpr Proofs.BwExprProofs.
 Open Scope Z_scope.
+From RRE Require Import Model.BwSmall Proofs.BwSmallProofs.
 From RRE Require Import Properties.C05.
 Check (C05_expr_no_panic : forall ws is_num s,
   shape_of ws is_num s <> RPanic /\ shape_of ws is_num s <> ROutOfFuel).
@@ -13,3 +14,7 @@ Check (C05_bw_expression_parser_total : forall is_alnum is_num is_ws s,
   BwExpr.parse is_alnum is_num is_ws s <> BwExpr.Panic /\ BwExpr.parse is_alnum is_num is_ws s <> BwExpr.Fuel).
 Check (C05_bw_query_parser_total : forall is_alnum is_num is_ws s,
   BwExpr.query_parse is_alnum is_num is_ws s <> BwExpr.Panic /\ BwExpr.query_parse is_alnum is_num is_ws s <> BwExpr.Fuel).
+Check (C05_aggregate_parser_total : forall t, parse_aggregate t <> AggPanic).
+Check (C05_nested_parser_total : forall q, nested_parse q <> GPanic /\ has_nested q <> None).
+Check (C05_disjunction_parser_total : forall p,
+  disj_parse p <> DPanic /\ split_top_level_or p <> None /\ contains_or p <> None).
